@@ -463,7 +463,8 @@ fn any_m_rt<S: Src>(s: &mut S, side: u8, kg: u8) -> M {
 /// one symbolic operation on the stated chain state (START, PRE), optionally followed by a pop
 pub fn chain_step<S: Src, const START: u8, const PRE: u8, const OP: u8, const FLAGS: u8>(s: &mut S) {
     // OP: 1..=11 push a move of that group, 20 push a UCI value, 30 pop / outcome operations
-    // FLAGS: bit 0 = follow the operation by a pop, bit 1 = compare the calculated outcome afterwards
+    // FLAGS: bit 0 = follow the operation by a pop, bit 1 = compare the calculated outcome afterwards,
+    // bit 2 = compare the repetition table with the positions on the line (always on for OP_OTHER)
     // (each board-level step costs about 100k SSA steps even on concrete data, so a harness does one thing)
     let (mut ch, mut md) = build(START, PRE);
     #[cfg(kani)]
@@ -541,7 +542,9 @@ pub fn chain_step<S: Src, const START: u8, const PRE: u8, const OP: u8, const FL
         },
     }
     vassert!("after the operation: position, move list, start and outcome equal the model", agree(&ch, &md));
-    vassert!("after the operation: repetition table = positions on the line", rep_agrees(&md));
+    if FLAGS & 4 != 0 || OP == OP_OTHER {
+        vassert!("after the operation: repetition table = positions on the line", rep_agrees(&md));
+    }
     if FLAGS & 2 != 0 {
         vassert!("after the operation: calculated outcome follows the history", ch.calc_outcome() == model_outcome(&md));
     }
@@ -553,7 +556,9 @@ pub fn chain_step<S: Src, const START: u8, const PRE: u8, const OP: u8, const FL
         let want = md.pop();
         vassert!("pop undoes exactly the latest accepted push", got == want);
         vassert!("after the pop: position (every field), move list and outcome equal the model", agree(&ch, &md));
-        vassert!("after the pop: repetition table = positions on the line", rep_agrees(&md));
+        if FLAGS & 4 != 0 || OP == OP_OTHER {
+            vassert!("after the pop: repetition table = positions on the line", rep_agrees(&md));
+        }
         vassert!("after the pop: the stored outcome is cleared", got.is_none() || ch.outcome().is_none());
     }
     core::mem::forget(ch);
